@@ -184,10 +184,32 @@ def global_rules(sm, rep, tier):
                 bad.append(f"line {node.lineno}: np.random")
         mutable_globals = [n for n, a in m.globals_assigned.items() if isinstance(a.value, (ast.List, ast.Dict, ast.Set)) and not n.startswith('__')]
         used = []
-        for fn in m.functions.values():
+        MUTATORS = {'append', 'extend', 'insert', 'pop', 'remove', 'clear', 'update', 'setdefault', 'popitem', 'add', 'discard', 'sort', 'reverse', '__setitem__', '__delitem__'}
+        fns = list(m.functions.values()) + [f_ for c_ in m.classes.values() for f_ in list(c_.methods.values()) + list(c_.getters.values()) + list(c_.setters.values())]
+        for fn in fns:
+            # a module-level list / dict / set that functions only *read* is a constant table (e.g. a dispatch dictionary);
+            # it is hidden state when a function stores into it, calls a mutating method on it, deletes from it, or lets it
+            # escape (passed as an argument / returned / aliased), after which it can be changed behind the analysis
             for node in ast.walk(fn.node):
-                if isinstance(node, ast.Name) and node.id in mutable_globals:
-                    used.append(f"{fn.name} uses module-level mutable {node.id}")
+                def is_g(x):
+                    return isinstance(x, ast.Name) and x.id in mutable_globals
+                if isinstance(node, (ast.Assign, ast.AugAssign, ast.Delete)):
+                    tgts = node.targets if not isinstance(node, ast.AugAssign) else [node.target]
+                    for t in tgts:
+                        if isinstance(t, ast.Subscript) and is_g(t.value):
+                            used.append(f"{fn.name} stores into module-level {t.value.id} (line {node.lineno})")
+                        if is_g(t) and isinstance(node, ast.AugAssign):
+                            used.append(f"{fn.name} updates module-level {t.id} in place (line {node.lineno})")
+                if isinstance(node, ast.Assign) and is_g(node.value):
+                    used.append(f"{fn.name} aliases module-level {node.value.id} (line {node.lineno})")
+                if isinstance(node, ast.Call):
+                    if isinstance(node.func, ast.Attribute) and is_g(node.func.value) and node.func.attr in MUTATORS:
+                        used.append(f"{fn.name} calls {node.func.value.id}.{node.func.attr}() (line {node.lineno})")
+                    for a_ in list(node.args) + [k.value for k in node.keywords]:
+                        if is_g(a_) and not (isinstance(node.func, ast.Name) and node.func.id in ('len', 'isinstance', 'type', 'tuple', 'list', 'sorted', 'print', 'str', 'repr', 'dict', 'set', 'frozenset', 'enumerate', 'zip', 'iter', 'any', 'all')):
+                            used.append(f"{fn.name} passes module-level {a_.id} to {ast.unparse(node.func)} (line {node.lineno})")
+                if isinstance(node, ast.Return) and node.value is not None and is_g(node.value):
+                    used.append(f"{fn.name} returns module-level {node.value.id} (line {node.lineno})")
         rep.unit(f"module {name}")
         rep.ob('Z5', f"module.{name}", not bad and not used, '; '.join((bad + used)[:4]) or "no randomness, clock, environment or mutable module state", f"src/pyfvtool/{name}.py:1")
     rep.floor('modules scanned', len(BUILDER_MODULES), 11)
